@@ -95,7 +95,21 @@ func genAtMostOnce(seed uint64, tier, variant string) any {
 		// a slow server around the moment the connection lifetime ends
 		p.Faults = append(p.Faults, FaultSpec{Kind: "slow", AtStep: r.IntN(120), NeedInflight: true, Pick: r.IntN(4), DurMs: pick(r, 1200, 2000, 4000)})
 	}
-	if variant == "lifetime" && r.IntN(2) == 0 {
+	if variant == "lifetime" && r.IntN(4) == 0 {
+		// one caller, no pipelining: every request takes the synchronous path, where a connection closed by the lifetime
+		// timer under a request in flight surfaces as an ordinary transport error - nothing is sent again there
+		p.Tasks = p.Tasks[:1]
+		for len(p.Tasks[0]) < 6 {
+			ci := len(p.Tasks[0])
+			p.Tasks[0] = append(p.Tasks[0], CallSpec{Kind: "do", Cmds: []CmdSpec{{Argv: []string{"VWTAG", "w" + strconv.Itoa(r.IntN(3)), fmt.Sprintf("t0.c%d.k0", ci)}, Keys: 1}}})
+		}
+		p.Opt.AlwaysPipelining, p.Opt.KeepAliveMs = false, 3600_000
+		p.Opt.ConnLifetimeMs = pick(r, 60, 150, 400, 1000)
+		p.X["sync_only"] = true
+		for i, n := 0, 2+r.IntN(5); i < n; i++ {
+			p.Faults = append(p.Faults, FaultSpec{Kind: "slow", AtStep: r.IntN(200), NeedInflight: true, Pick: r.IntN(4), DurMs: pick(r, 1100, 1500, 2500)})
+		}
+	} else if variant == "lifetime" && r.IntN(2) == 0 {
 		// directed at the recovery of a batch that was cut in the middle: short lifetimes, replies delivered in pieces,
 		// several slow episodes, mostly the pipelined path (where the client keeps the replies it has read)
 		p.Opt.ConnLifetimeMs = pick(r, 60, 150, 400, 1000)
@@ -217,6 +231,11 @@ func checkAtMostOnce(e *env, prop string) {
 							}
 						}
 					}
+				}
+				if so, _ := e.plan.X["sync_only"].(bool); so && rule == "executed-twice-after-lifetime-expiry" {
+					// not the known finding: that one lives on the pipelined path (the background reader marks outstanding
+					// calls with the internal "expired" error); a single caller without pipelining never gets there
+					rule = "executed-twice-after-lifetime-expiry-on-the-synchronous-path"
 				}
 				out.violate(prop, rule, "non-retryable write %q of task %d call %d (%s of %d commands) was executed %d times by the server (steps %v, connections %v) %s; redirect replies sent: %d", c.Argv, task, rec.Index, spec.Kind, len(spec.Cmds), in.execs, in.steps, in.conns, how, in.redirects)
 			} else {
